@@ -265,6 +265,8 @@ theorem strip_erased {s s' : St} {l : Label} (hm : MInv s) (hl : l.erased = true
         · by_cases hc : INTR < s.now - s.last <;> simp [hc, stripSpc]
         · simp [stripSpc]
         · simp [stripSpc]
+        · simp [stripSpc]
+        · simp [stripSpc]
         · by_cases hc : INTR < s.now - s.last <;> simp [hc, stripSpc]
       · simp at hd
     | lockT =>
@@ -275,6 +277,10 @@ theorem strip_erased {s s' : St} {l : Label} (hm : MInv s) (hl : l.erased = true
       split at hd
       · simp only [Option.some.injEq] at hd; subst hd
         rename_i hw
+        have ht : s.thd = .s := hm.thdS1 (by rw [hw]; rfl)
+        simp [strip, hw, ht, stripSpc]
+      · simp only [Option.some.injEq] at hd; subst hd
+        rename_i k hw
         have ht : s.thd = .s := hm.thdS1 (by rw [hw]; rfl)
         simp [strip, hw, ht, stripSpc]
       · split at hd <;> simp at hd; subst hd
